@@ -133,15 +133,32 @@ func (f *Formatter) trailing(trailing ast.Comments) string {
 		return c
 	}
 	c += strings.Repeat(" ", f.conf.TrailingCommentWidth)
-	c += f.formatComment(trailing, "", 0)
+	c += f.formatCommentWith(trailing, "", 0, false)
 	return c
+}
+
+// Format ident or literal which is printed in the line with its leading and trailing comments.
+// The line comment is terminated by a line feed, otherwise the following tokens on the line are commented out
+func (f *Formatter) inline(meta *ast.Meta, value string) string {
+	leading := f.formatComment(meta.Leading, " ", 0)
+	if trailing := f.formatComment(meta.Trailing, " ", 0); trailing != "" {
+		return leading + value + " " + strings.TrimRight(trailing, " ")
+	}
+	return leading + value
 }
 
 // Format leading/infix/trailing comments
 func (f *Formatter) formatComment(comments ast.Comments, sep string, level int) string {
+	return f.formatCommentWith(comments, sep, level, true)
+}
+
+// Format comments, if breakLine is true and the separator does not have a line feed,
+// the line comment is terminated by a line feed, otherwise the following tokens on the line are commented out
+func (f *Formatter) formatCommentWith(comments ast.Comments, sep string, level int, breakLine bool) string {
 	if len(comments) == 0 {
 		return ""
 	}
+	breakLine = breakLine && !strings.Contains(sep, "\n")
 
 	buf := bufferPool.Get().(*bytes.Buffer) // nolint:errcheck
 	defer bufferPool.Put(buf)
@@ -158,6 +175,10 @@ func (f *Formatter) formatComment(comments ast.Comments, sep string, level int) 
 		// #FASTLY macros must be kept as they are, the macro is recognized only with sharp character
 		if strings.HasPrefix(comments[i].String(), "#FASTLY") {
 			buf.WriteString(comments[i].String())
+			if breakLine {
+				buf.WriteString("\n")
+				continue
+			}
 			buf.WriteString(sep)
 			continue
 		}
@@ -170,6 +191,10 @@ func (f *Formatter) formatComment(comments ast.Comments, sep string, level int) 
 			buf.WriteString(formatCommentCharacter(comments[i].String(), r))
 		default:
 			buf.WriteString(comments[i].String())
+		}
+		if breakLine && !strings.HasPrefix(comments[i].String(), "/*") {
+			buf.WriteString("\n")
+			continue
 		}
 		buf.WriteString(sep)
 	}
